@@ -239,7 +239,7 @@ pub fn panic_case(p: &Profile) -> BoxedStrategy<Case> {
     healthy.stepw = StepW { awaitgate: 0, opengate: 0, blockongate: 0, nested_sync: 0, nested_desync: 1, nested_futdesync: 0, awaitfutsync: 0, awaitfutdesync: 0, ..StepW::default() };
     let bystanders = vec(vec(op_strategy(&healthy), 0..=3), 0..=2);
     let phase2 = vec(vec(op_strategy(&healthy), 1..=4), 1..=3);
-    (1u8..=3, 2u8..=4, 0u8..11, bystanders, phase2, sched_strategy(p.sched_bytes), prop::bool::weighted(0.3), vec(0u8..5, 1..=3), (prop::bool::weighted(0.3), vec((any::<u8>(), 0u8..4), 0..=2), prop::bool::weighted(0.2))).prop_map(|(pool, objects, ctx, mut by, mut ph2, sched, unlock_points, attempts, (quiet, parked, second))| {
+    (1u8..=3, 2u8..=4, 0u8..12, bystanders, phase2, sched_strategy(p.sched_bytes), prop::bool::weighted(0.3), vec(0u8..5, 1..=3), (prop::bool::weighted(0.3), vec((any::<u8>(), 0u8..4), 0..=2), prop::bool::weighted(0.2))).prop_map(|(pool, objects, ctx, mut by, mut ph2, sched, unlock_points, attempts, (quiet, parked, second))| {
         // the panicking op and its runner context
         let mut callers: Vec<Vec<Op>> = vec![];
         let panic_body = vec![Step::Touch, Step::Yield, Step::Panic];
@@ -248,7 +248,18 @@ pub fn panic_case(p: &Profile) -> BoxedStrategy<Case> {
             // pool thread runs a plain job
             0 => callers.push(vec![Op::Desync { o: 0, body: panic_body, id: 0 }]),
             // pool thread runs a future job, panic after a suspension
-            1 => callers.push(vec![Op::FutDesync { o: 0, body: vec![Step::AwaitGate { g: 0 }, Step::Panic], slot: 0, id: 0 }, Op::DropFut { slot: 0 }, Op::OpenGate { g: 0 }]),
+            // (the waker it suspended with is fired again once the panic is over: a stale wake-up for a panicked queue)
+            1 => {
+                callers.push(vec![Op::FutDesync { o: 0, body: vec![Step::AwaitGate { g: 0 }, Step::Panic], slot: 0, id: 0 }, Op::DropFut { slot: 0 }, Op::OpenGate { g: 0 }]);
+                stale_rewake = true;
+            }
+            // the same future job, but (when the pool is late) drained by a sync caller: it suspends with the caller's thread waker,
+            // panics on its second poll inside sync(), and the thread waker is fired again afterwards
+            11 => {
+                callers.push(vec![Op::FutDesync { o: 0, body: vec![Step::AwaitGate { g: 0 }, Step::Panic], slot: 0, id: 0 }, Op::DropFut { slot: 0 }, Op::Sync { o: 0, body: vec![Step::Touch], id: 0 }]);
+                callers.push(vec![Op::Yield, Op::Yield, Op::Yield, Op::OpenGate { g: 0 }]);
+                stale_rewake = true;
+            }
             // sync caller, immediate path
             2 => callers.push(vec![Op::Sync { o: 0, body: panic_body, id: 0 }]),
             // sync caller draining an earlier panicking job (or waiting for the pool to run it)
